@@ -44,7 +44,7 @@ void svt_verif_event(int kind, uint64_t a, uint64_t b, uint64_t c, uint64_t d)
 #define SVT_VERIF_EV_SEG_ASSIGN 22 /* a=pcs, b=tile group idx | picture number<<16, c=segment index */
 #define SVT_VERIF_EV_SEG_PIC 23 /* a=pcs, b=tile group idx | picture number<<16, c=(sb cols<<16|sb rows of tile group), d=(seg cols<<16|seg rows) */
 #define SVT_VERIF_EV_SEG_RESET 24 /* a=pcs, b=picture number: picture is re-encoded (recode loop) */
-#define SVT_VERIF_EV_DEC_TOOL 40 /* a=tool bit mask (1 palette, 2 intrabc, 4 filter intra, 8 CfL, 16 inter-intra, 32 OBMC, 64 local warp, 128 global-mv mode), b=frame type, c=mi_row, d=mi_col */
+#define SVT_VERIF_EV_DEC_TOOL 40 /* a=tool bit (1 palette, 2 intrabc, 4 filter intra, 8 CfL, 16 inter-intra, 32 OBMC, 64 local warp): emitted where the syntax element selecting the tool is read */
 #define SVT_VERIF_EV_DEC_FRAME_HDR 41 /* a=field id, b=value */
 #else
 #define SVT_VERIF_SPIN() \
